@@ -150,3 +150,25 @@ Proof.
   apply (keys_of_no_zst_twins h Hh TI HTI v Hv). exact Hz.
 Qed.
 Print Assumptions C04_end_to_end_zst.
+
+(* ... and `unpack` of the record built from a history hands every value back, in declaration order, destroying nothing *)
+Theorem C04_end_to_end_unpack : forall h TI rt cap m, hist_ok h -> pow2_hist h -> rt_ok rt = true ->
+  let b := run h in let ds := b_ds b in
+  (forall v i, In v (b_vs b) -> In i v ->
+     ti_size (TI (d_ty (getd ds i))) = d_size (getd ds i) /\ ti_align (TI (d_ty (getd ds i))) = d_align (getd ds i)) ->
+  max_size (ds, b_vs b) = Some m -> (m <= cap)%N ->
+  forall v, In v (b_vs b) ->
+  (forall i j, In i v -> In j v -> i <> j -> Gen.ty ds i = Gen.ty ds j -> d_size (getd ds i) = 0%N ->
+               Gen.of ds i <> Gen.of ds j) ->
+  forall vid vals, exists r,
+    op_new ds TI rt (max_type_align (ds, b_vs b)) cap vid v vals = Ok (ORecord r, []) /\
+    op_unpack ds TI rt (max_type_align (ds, b_vs b)) cap vid v r =
+      Ok (OUnpacked (map (fun i => (nm ds i, Some (vals i))) v), []).
+Proof.
+  intros h TI rt cap m Hh Hp RT b ds HTI Hm Hcap v Hv Hz vid vals.
+  assert (L : layout_ok ds TI (max_type_align (ds, b_vs b)) cap v).
+  { apply (layout_ok_of_run_zst h Hh Hp TI HTI cap); eauto. }
+  destruct (C04_new ds TI rt _ cap RT v L vid vals) as (r & E & H).
+  exists r. split; [exact E|]. exact (C04_unpack ds TI rt _ cap v L vid vals r H).
+Qed.
+Print Assumptions C04_end_to_end_unpack.
